@@ -1,5 +1,5 @@
 """C09 — wirelength is geometrically exact and incrementally consistent."""
-GEN = ["OrientTables"]
+GEN = ["OrientTables", "GeomFns"]
 VARIANT = "san"
 RULE = ("case = circuit (vc::genCircuit plus extra nets, or own generator: pins inside/on/outside the outline, repeated cells, "
         "same pin twice, fixed-only, empty and single-pin nets, zero-size cells, cells at +-10^6) + op sequence (orientation sweep "
@@ -8,8 +8,11 @@ RULE = ("case = circuit (vc::genCircuit plus extra nets, or own generator: pins 
 PARTIAL = [
     "all clauses of the statement are proved in Lean for the model (pin_offset_geometric, hpwl_is_bbox_sum, incr_init, incr_inv "
     "for every circuit, every subset list, every update sequence; placer_value_is_incremental for the pair of models DetailedPlacer "
-    "holds); what is NOT a theorem: the model = code tie (differential stream, bounded by the generator) and C++ int overflow (the "
-    "model is over unbounded Int; magnitudes up to +-10^6 run under UBSan)",
+    "holds); what is NOT a theorem: the model = code tie (differential stream, bounded by the generator) and, for the incremental model, C++ int "
+    "overflow beyond the C07 domain (IncrNetModel: positions within +-2^23, proved in C07's incrnet_*_no_fault).  For "
+    "Circuit::hpwl() itself overflow freedom IS a theorem: hpwl_no_overflow (checked twin Checked.hpwlC of the expression tree = "
+    "unbounded model on HpwlDom: cell origins within +-8*10^8, sizes/offsets within +-10^8, <= 2^30 nets; the twin is executed "
+    "against the real function under UBSan on the h<k> cases, whose coordinates reach +-8*10^8 and, for the predicted-fault side, +-2*10^9)",
     "pin_offset_geometric / hpwl_is_bbox_sum assume cell sizes >= 0 and one of the eight orientations (CellsOk); for negative "
     "sizes or INVALID/UNKNOWN orientations the geometric specification is not defined and nothing is claimed",
     "DetailedPlacer::value() is observed on the real optimiser object (construction, primitive moves through hook H3, callbacks, "
@@ -18,6 +21,11 @@ PARTIAL = [
     "(including the tentative update/revert pairs of valueOnSwap/valueOnInsert and RowReordering's enumeration) is not modelled here "
     "(C05 models the moves) — the theorem covers every such history, the stream compares the net effect; without hook H3 in the tree "
     "only construction, callbacks and the end are observed",
+    "geometry_layer_translated ties the BODIES of Circuit::placedWidth / placedHeight / pinXOffset / pinYOffset / placement / x / y / "
+    "orientation / area, isTurn and Rectangle(int,int,int,int) to the hand-written Cell.* / Circuit.pinXOffset / pinYOffset "
+    "(Gen/GeomFns.lean is regenerated from the clang AST on every run and proved equal, as functions, to the model); NOT translated: "
+    "the loops of Circuit::hpwl (its model Circuit.hpwl stays tied by the differential stream only) and the representation map "
+    "array-of-fields <-> Cell / Pin records, which the translator states rather than derives",
     "orientation-changing moves are outside IncrNetModel's documented scope (pin offsets are frozen at build time): the "
     "invariant is about position updates, and the dprun oracle compares value() with the from-scratch HPWL under the offsets of "
     "the construction-time orientations; the consequence for detailed placement is known finding KF-C05-1 (C05)",
@@ -35,7 +43,8 @@ ASSUMPTIONS = [
     "model is built, never between build and updateCellPos",
 ]
 LEVEL_TEXT = ("Lean 4 theorems over an executable model of Circuit::hpwl / pinXOffset / pinYOffset / placedWidth / placedHeight "
-              "(with the orientation tables regenerated from the C++ source on every run) and of IncrNetModel (builder, both CSR "
+              "(with the orientation tables AND the whole bodies of placedWidth / placedHeight / pinXOffset / pinYOffset / placement regenerated "
+              "from the C++ source on every run and proved equal to the hand-written shared model: geometry_layer_translated) and of IncrNetModel (builder, both CSR "
               "directions, finalize, updateCellPos, recomputeNet, x/yTopology over all cells and over subsets with the fixed "
               "pseudo-pin folding; the xtopo_/ytopo_ pair of DetailedPlacer with its constructor, updateCellPos and value()): the code's pin offsets and placed sizes equal the dihedral-group geometry for all 8 "
               "orientations and all integers, hpwl is the sum of the nets' bounding-box half-perimeters, and the incremental value "
@@ -47,7 +56,8 @@ LEVEL_TEXT = ("Lean 4 theorems over an executable model of Circuit::hpwl / pinXO
               "construction, at primitive moves, callbacks and the end), and an independent geometric oracle in the harness evaluates the property statement "
               "on the real code for every compared state")
 LEVEL_NOTE = ("Trusted: Lean kernel (axioms propext/Classical.choice/Quot.sound only), the hand-written model's tie to the code "
-              "(differential, bounded by the generator), tools/translate.py for Gen/OrientTables, unbounded Int for C++ int, "
+              "(differential, bounded by the generator), tools/translate.py for Gen/OrientTables and Gen/GeomFns (incl. its stated representation map "
+              "cellX_[cell] = (cell record).x, pin arrays = Pin record), unbounded Int for C++ int, "
               "list lookup for std::unordered_map.")
 TECHNIQUE = ("Lean 4 proof (case analysis over the 8 orientations, induction over nets and over update sequences) + translated "
              "orientation tables + model/implementation correspondence stream + independent geometric HPWL oracle")
